@@ -47,6 +47,17 @@ func verifHoldTicker(el *eventloop) bool {
 	return true
 }
 
+// VerifTopoPointFn is called by the topology refresher (points "r-...") and by ticker() (points
+// "t-...") before each access to the topology state the two goroutines share; a blocking
+// function makes it a scheduler gate for replaying interleavings of the two.
+var VerifTopoPointFn func(point string)
+
+func verifTopoPoint(p string) {
+	if f := VerifTopoPointFn; f != nil {
+		f(p)
+	}
+}
+
 func verifRefreshIdle() {
 	if f := VerifRefreshIdleFn; f != nil {
 		f()
